@@ -191,12 +191,432 @@ def attribute_resource(c, obs, f):
     return None
 
 
+
+# --------------------------------------------------------------------------- worker processes inside a real Simulation
+# A scenario: one primitive, W worker entities.  Worker i starts at `at` ns and runs its script:
+#   ["acq", a] blocking acquire   ["try", a] non-blocking (on failure the worker skips to after its matching "rel")
+#   ["hold", ns] yield a delay    ["rel", a] release
+# `a`: Resource amount / Semaphore permits / RWLock 0=read 1=write / unused for Mutex.
+# Every call on the primitive is recorded (operation, `now`, result kind, ids woken, counters) in global order:
+# that trace is replayed through the model inside Coq (per-handler trace replay).
+
+HOLDS = [0, 0, 1, 1000, 1000, 2000, 5000]
+
+
+def gen_script(rng, kind, cap):
+    script = []
+    for _ in range(rng.choice([1, 1, 2])):
+        if kind in ("resource", "semaphore"):
+            a = rng.randint(1, cap) if rng.random() < 0.7 else 1
+        elif kind == "rwlock":
+            a = 1 if rng.random() < 0.35 else 0
+        else:
+            a = 0
+        script.append(["try" if rng.random() < 0.15 else "acq", a])
+        script.append(["hold", rng.choice(HOLDS)])
+        script.append(["rel", a])
+        if rng.random() < 0.5:
+            script.append(["hold", rng.choice(HOLDS)])
+    return script
+
+
+def gen_sync(kind):
+    def gen(rng):
+        cap = 1 if kind == "mutex" else rng.choice([1, 2, 2, 3, 4])
+        if kind == "rwlock":
+            cap = rng.choice([0, 0, 1, 2, 3])          # 0 = unlimited readers
+        nw = rng.randint(2, 6)
+        simultaneous = rng.random() < 0.4
+        workers = []
+        for _ in range(nw):
+            at = 0 if simultaneous else rng.choice([0, 0, 500, 1000, 1000, 1500, 3000])
+            workers.append(dict(at=at, script=gen_script(rng, kind, max(cap, 1))))
+        return dict(kind=kind, cap=cap, workers=workers)
+    return gen
+
+
+def _make_primitive(kind, cap):
+    if kind == "resource":
+        from happysimulator.components.resource import Resource
+        return Resource("p", cap)
+    if kind == "mutex":
+        from happysimulator.components.sync import Mutex
+        return Mutex("p")
+    if kind == "semaphore":
+        from happysimulator.components.sync import Semaphore
+        return Semaphore("p", cap)
+    if kind == "rwlock":
+        from happysimulator.components.sync import RWLock
+        return RWLock("p", max_readers=cap or None)
+    raise ValueError(kind)
+
+
+def _snapshot(kind, p, reg):
+    if kind == "resource":
+        st = p.stats
+        return [p.available, st.acquisitions, st.releases, st.contentions, st.total_wait_time_ns, st.peak_waiters] + [w.amount for w in p._waiters]
+    if kind == "mutex":
+        st = p.stats
+        owner = -1 if p.owner is None else int(p.owner)
+        return [int(p.is_locked), owner, p.waiters, st.acquisitions, st.contentions, st.releases, st.total_wait_time_ns]
+    if kind == "semaphore":
+        st = p.stats
+        return [p.available, st.acquisitions, st.releases, st.contentions, st.total_wait_time_ns, st.peak_waiters] + [w.count for w in p._waiters]
+    if kind == "rwlock":
+        st = p.stats
+        return [p.active_readers, int(p.is_write_locked), st.read_acquisitions, st.write_acquisitions, st.read_releases,
+                st.write_releases, st.read_contentions, st.write_contentions, st.total_read_wait_ns, st.total_write_wait_ns,
+                st.peak_readers] + [int(w.waiter_type.value == "writer") if isinstance(w.waiter_type.value, str) else int(w.waiter_type.name == "WRITER") for w in p._waiters]
+    raise ValueError(kind)
+
+
+def impl_sync(c):
+    from happysimulator import Entity, Event, Instant, Simulation
+    from happysimulator.core.sim_future import SimFuture
+    from hsverif.util import run_bounded
+    kind = c["kind"]
+    prim = _make_primitive(kind, c["cap"])
+    trace, wlog = [], []
+    reg = {}                                  # id(waiter object) -> worker index (Resource: future id)
+    counters = dict(resumes=0, intended=0, nid=0)
+    futures, try_grants = [], []              # Resource only
+
+    def queue_ids():
+        return [reg.get(id(w), -1) for w in prim._waiters]
+
+    def rec(op, code, woken=()):
+        if len(trace) >= 100:                 # a livelocked run: keep the prefix only
+            return
+        e = dict(op=op, code=code, woken=list(woken), k=_snapshot(kind, prim, reg))
+        if kind == "resource":
+            gs = [f.value for f in futures if f.is_resolved] + try_grants
+            e["live"] = sum(g.amount for g in gs if not g.released)
+        trace.append(e)
+
+    class Worker(Entity):
+        def __init__(self, idx, script):
+            super().__init__(f"w{idx}")
+            self.idx, self.script = idx, script
+            self.done = False
+            self.blocked = False
+
+        def _ns(self):
+            return self.now.nanoseconds
+
+        def _release(self, a, held):
+            before = queue_ids()
+            arg = a
+            try:
+                if kind == "resource":
+                    arg, g = held.pop()
+                    g.release()
+                elif kind == "mutex":
+                    prim.release()
+                elif kind == "semaphore":
+                    prim.release(a)
+                elif kind == "rwlock":
+                    (prim.release_write if a else prim.release_read)()
+                after = queue_ids()
+                woken = [x for x in before if x not in after]
+                rec(["rel", self.idx, arg, self._ns(), a], 6, woken)
+                wlog.append(["rel", self.idx, self._ns(), a, woken])
+            except (RuntimeError, ValueError):
+                rec(["rel", self.idx, arg, self._ns()], 3)
+
+        def handle_event(self, event):
+            i = self.idx
+            held = []
+            skip = False
+            wlog.append(["arrive", i, self._ns()])
+            for st in self.script:
+                if skip:
+                    if st[0] == "rel":
+                        skip = False
+                    continue
+                if st[0] == "hold":
+                    counters["intended"] += 1
+                    yield st[1] / 1e9
+                    counters["resumes"] += 1
+                elif st[0] == "try":
+                    a = st[1]
+                    if kind == "resource":
+                        g = prim.try_acquire(a)
+                        ok = g is not None
+                        if ok:
+                            held.append((counters["nid"], g))
+                            counters["nid"] += 1
+                            try_grants.append(g)
+                    elif kind == "mutex":
+                        ok = prim.try_acquire(owner=str(i))
+                    elif kind == "semaphore":
+                        ok = prim.try_acquire(a)
+                    else:
+                        ok = prim.try_acquire_write() if a else prim.try_acquire_read()
+                    rec(["try", i, a, self._ns()], 4 if ok else 5, [held[-1][0]] if ok and kind == "resource" else ())
+                    if ok:
+                        wlog.append(["acquired", i, self._ns(), a, "try"])
+                    else:
+                        skip = True
+                elif st[0] == "acq":
+                    a = st[1]
+                    wlog.append(["request", i, self._ns(), a])
+                    counters["intended"] += 1
+                    if kind == "resource":
+                        fut = prim.acquire(a)
+                        fid = counters["nid"]
+                        counters["nid"] += 1
+                        futures.append(fut)
+                        if fut.is_resolved:
+                            rec(["acq", i, a, self._ns()], 0, [fid])
+                        else:
+                            reg[id(prim._waiters[-1])] = fid
+                            self.blocked = True
+                            rec(["acq", i, a, self._ns(), fid], 1)
+                            wlog.append(["blocked", i, self._ns(), a, fid])
+                        g = yield fut
+                        counters["resumes"] += 1
+                        self.blocked = False
+                        held.append((fid, g))
+                        wlog.append(["acquired", i, self._ns(), a, "acq", fid])
+                        continue
+                    if kind == "mutex":
+                        gen = prim.acquire(owner=str(i))
+                    elif kind == "semaphore":
+                        gen = prim.acquire(a)
+                    else:
+                        gen = prim.acquire_write() if a else prim.acquire_read()
+                    nq = len(prim._waiters)
+                    v = next(gen)
+                    parked = isinstance(v, SimFuture)
+                    if len(prim._waiters) > nq:
+                        reg[id(prim._waiters[-1])] = i
+                        self.blocked = True
+                        wlog.append(["blocked", i, self._ns(), a, i])
+                    rec(["acq", i, a, self._ns(), i], 1 if parked else 0)
+                    queued = self.blocked
+                    while True:
+                        x = yield v
+                        counters["resumes"] += 1
+                        try:
+                            v = gen.send(x)
+                        except StopIteration:
+                            if queued:
+                                rec(["resume", i, a, self._ns()], 2)
+                            break
+                        rec(["resume", i, a, self._ns()], 1 if isinstance(v, SimFuture) else 0)
+                    self.blocked = False
+                    wlog.append(["acquired", i, self._ns(), a, "acq", i])
+                elif st[0] == "rel":
+                    self._release(st[1], held)
+            self.done = True
+
+    workers = [Worker(i, w["script"]) for i, w in enumerate(c["workers"])]
+    sim = Simulation(entities=[prim] + workers)
+    for w, spec in zip(workers, c["workers"]):
+        sim.schedule(Event(time=Instant(spec["at"]), event_type="go", target=w))
+    summary, verdict = run_bounded(sim, max_events_per_instant=600, max_events=20000, wall_s=20.0)
+    return dict(trace=trace, wlog=wlog, verdict=verdict,
+                events=None if summary is None else summary.total_events_processed,
+                resumes=counters["resumes"], intended=counters["intended"],
+                done=[w.done for w in workers], blocked=[w.blocked for w in workers],
+                final=_snapshot(kind, prim, reg))
+
+
+def encode_sync(c, obs):
+    kind = c["kind"]
+    steps = []
+    for e in obs["trace"]:
+        name, i, a, now = e["op"][:4]
+        if kind == "resource":
+            # robs format of ok_resource: (code, resolved, avail, waiter amounts, live, stats)
+            k = e["k"]
+            code = {0: 1, 1: 2, 4: 1, 5: 3, 6: 4, 3: 0}[e["code"]]
+            op = Ctor({"acq": "RAcquire", "try": "RTry", "rel": "RRelease"}[name], now, a)
+            steps.append((op, (code, e["woken"], k[0], k[6:], e["live"], k[1:6])))
+            continue
+        if kind == "mutex":
+            op = {"try": lambda: Ctor("MTry", i), "acq": lambda: Ctor("MAcqStart", i, now),
+                  "resume": lambda: Ctor("MAcqResume", i, now), "rel": lambda: Ctor("MRelease", i, now)}[name]()
+        elif kind == "semaphore":
+            op = {"try": lambda: Ctor("STry", i, a), "acq": lambda: Ctor("SAcqStart", i, a, now),
+                  "resume": lambda: Ctor("SAcqResume", i, now), "rel": lambda: Ctor("SRelease", a, now)}[name]()
+        else:
+            op = {"try": lambda: Ctor("RWTryW" if a else "RWTryR", i),
+                  "acq": lambda: Ctor("RWAcqWStart" if a else "RWAcqRStart", i, now),
+                  "resume": lambda: Ctor("RWResume", i, now),
+                  "rel": lambda: Ctor("RWRelW" if a else "RWRelR", i, now)}[name]()
+        steps.append((op, (e["code"], e["woken"], e["k"])))
+    if kind == "mutex":
+        return term(steps)
+    if kind == "rwlock":
+        return term((SomeV(c["cap"]) if c["cap"] else None, steps))
+    return term((c["cap"], steps))
+
+
+def _fits(kind, cap, k, head):
+    """Would the head waiter be admitted in the state of snapshot k?"""
+    if kind in ("resource", "semaphore"):
+        return k[0] >= head
+    if kind == "mutex":
+        return not k[0]
+    readers, wl = k[0], k[1]
+    if head:                       # writer
+        return not wl and readers == 0
+    return not wl and not (cap and readers >= cap)
+
+
+def oracle_sync(c, obs):
+    kind, cap = c["kind"], c["cap"]
+    out = []
+    if obs["verdict"] != "ok":
+        out.append(dict(clause="waiting consumes no simulated activity, so the clock advances to the release",
+                        mechanism="spin-wait", verdict=obs["verdict"]))
+        return out
+    nstarted = sum(1 for e in obs["wlog"] if e[0] == "arrive")
+    if obs["resumes"] != obs["intended"] or obs["events"] != nstarted + obs["resumes"]:
+        out.append(dict(clause="waiting consumes no simulated activity", mechanism="extra-events",
+                        events=obs["events"], expected=nstarted + obs["intended"], resumes=obs["resumes"]))
+    # ---- accounting on the trace of calls
+    queue = []                    # (id, amount/kind) of blocked acquirers, arrival order
+    amount_of = {}
+    held = 0                      # amount handed out (immediate, try, woken) and not released
+    readers = writers = 0
+    woken_at = {}
+    for n, e in enumerate(obs["trace"]):
+        name, i, a, now = e["op"][:4]
+        k = e["k"]
+        code = e["code"]
+        unit = a if kind in ("resource", "semaphore") else 1
+        if name == "acq" and code == 1:
+            wid = e["op"][4]
+            queue.append(wid)
+            amount_of[wid] = a
+        if (name == "acq" and code == 0) or (name == "try" and code == 4):
+            if name == "acq" and queue:
+                out.append(dict(clause="granted in arrival order", mechanism="immediate-grant-overtakes-queue", step=n, kind=kind,
+                                what=f"{kind}: acquire grants a later request immediately while an earlier request is still queued"))
+            if kind == "rwlock":
+                if a:
+                    writers += 1
+                else:
+                    readers += 1
+            else:
+                held += unit
+        if name == "rel" and code == 6:
+            if kind == "resource":
+                held -= e["op"][4]
+            elif kind == "rwlock":
+                if a:
+                    writers -= 1
+                else:
+                    readers -= 1
+            else:
+                held -= unit
+            w = e["woken"]
+            if w != queue[:len(w)]:
+                out.append(dict(clause="blocked acquirers are granted in arrival order", step=n, woken=w, queue=list(queue)))
+                return out
+            for x in w:
+                if x in woken_at:
+                    pass
+                woken_at[(x, n)] = now
+                if kind == "rwlock":
+                    if amount_of[x]:
+                        writers += 1
+                    else:
+                        readers += 1
+                else:
+                    held += amount_of[x] if kind != "mutex" else 1
+            queue = queue[len(w):]
+        # bounds
+        if kind in ("resource", "semaphore"):
+            if not 0 <= k[0] <= cap:
+                out.append(dict(clause="available stays within [0, capacity]", step=n, avail=k[0]))
+                return out
+            if k[0] + held != cap:
+                out.append(dict(clause="held plus available equals capacity", step=n, avail=k[0], held=held))
+                return out
+        elif kind == "mutex":
+            if held > 1 or (held == 1) != bool(k[0]):
+                out.append(dict(clause="a mutex has at most one holder", step=n, holders=held, locked=k[0]))
+                return out
+        else:
+            if writers > 1 or (writers and readers) or (cap and readers > cap):
+                out.append(dict(clause="a writer excludes everyone, readers exclude writers, readers <= max_readers", step=n,
+                                readers=readers, writers=writers))
+                return out
+            if readers != k[0] or bool(writers) != bool(k[1]):
+                out.append(dict(clause="lock state equals the set of holders", step=n, readers=readers, writers=writers, k=k[:2]))
+                return out
+        if queue and _fits(kind, cap, k, amount_of[queue[0]]):
+            out.append(dict(clause="granted as soon as capacity allows", step=n, head=queue[0], k=k[:3]))
+            return out
+    # ---- timing on the worker log: a woken waiter resumes at the instant of the release
+    rel_time = {}
+    for e in obs["wlog"]:
+        if e[0] == "rel":
+            for x in e[4]:
+                rel_time.setdefault(x, []).append(e[2])
+    acq_times = {}
+    for e in obs["wlog"]:
+        if e[0] == "acquired" and e[4] == "acq" and e[5] in rel_time:
+            acq_times.setdefault(e[5], []).append(e[2])
+    blocked_times = {}
+    for e in obs["wlog"]:
+        if e[0] == "blocked":
+            blocked_times.setdefault(e[4], []).append(e[2])
+    for x, rts in rel_time.items():
+        # the j-th blocking of x is ended by the j-th release that woke x
+        ats = [t for t, b in zip(_blocked_acq_times(obs["wlog"], x), range(len(rts)))]
+        if ats != rts[:len(ats)] or len(ats) != len(rts):
+            out.append(dict(clause="the clock advances to the release: a woken waiter resumes at the instant of the release",
+                            waiter=x, released_at=rts, resumed_at=ats))
+            break
+    if not all(obs["done"]):
+        out.append(dict(clause="every waiter whose predecessor releases is eventually served", done=obs["done"], blocked=obs["blocked"]))
+    return out
+
+
+def _blocked_acq_times(wlog, x):
+    """Times at which the acquires of waiter id x that had been blocked completed."""
+    out, pending = [], False
+    for e in wlog:
+        if e[0] == "blocked" and e[4] == x:
+            pending = True
+        elif e[0] == "acquired" and e[4] == "acq" and e[5] == x and pending:
+            out.append(e[2])
+            pending = False
+    return out
+
+
+def attribute_sync(c, obs, f):
+    if f.get("mechanism") == "immediate-grant-overtakes-queue":
+        return {"resource": "C09-resource-overtake", "semaphore": "C09-semaphore-overtake"}.get(c["kind"])
+    return None
+
+
+def nontrivial_sync(c, obs):
+    return any(e["woken"] for e in obs["trace"] if e["op"][0] == "rel")
+
+
 ROBS = "Z * list (rop * robs)"
 
 FAMILIES = [
     Family("resource", IMPORTS, "ok_resource", ROBS, gen_resource, impl_resource, encode_resource,
            oracle_resource, lambda c, o: any(s["code"] == 4 and s["resolved"] for s in o), attribute_resource,
            describe=lambda c: f"cap={c['cap']},ops={len(c['ops']) // 10 * 10}+"),
+    Family("resource_sim", IMPORTS, "ok_resource", ROBS, gen_sync("resource"), impl_sync, encode_sync,
+           oracle_sync, nontrivial_sync, attribute_sync, parallel=True,
+           describe=lambda c: f"cap={c['cap']},workers={len(c['workers'])}"),
+    Family("mutex_sim", IMPORTS, "ok_mutex", "list (mop * sobs)", gen_sync("mutex"), impl_sync, encode_sync,
+           oracle_sync, nontrivial_sync, attribute_sync, parallel=True,
+           describe=lambda c: f"workers={len(c['workers'])}"),
+    Family("semaphore_sim", IMPORTS, "ok_semaphore", "Z * list (sop * sobs)", gen_sync("semaphore"), impl_sync, encode_sync,
+           oracle_sync, nontrivial_sync, attribute_sync, parallel=True,
+           describe=lambda c: f"cap={c['cap']},workers={len(c['workers'])}"),
+    Family("rwlock_sim", IMPORTS, "ok_rwlock", "option Z * list (rwop * sobs)", gen_sync("rwlock"), impl_sync, encode_sync,
+           oracle_sync, nontrivial_sync, attribute_sync, parallel=True,
+           describe=lambda c: f"max={c['cap']},workers={len(c['workers'])}"),
 ]
 
 TRUSTED = [
@@ -206,13 +626,34 @@ TRUSTED = [
     "model choices: amounts and capacities are integers (Z); client/grant identities are creation indices; time is an explicit input of each operation",
 ]
 
-COQ_FILES = ["C09/Model.v", "C09/Resource.v", "C09/Props.v"]
+COQ_FILES = ["C09/Model.v", "C09/Resource.v", "C09/Sync.v", "C09/Props.v"]
+
+
+class _Sharded:
+    """ctx proxy: evaluate the cases in small shards (traces are long terms; Coq's
+    elaboration of one big list literal is super-linear) on 8 coqc processes."""
+
+    def __init__(self, ctx):
+        self._ctx = ctx
+
+    def __getattr__(self, name):
+        return getattr(self._ctx, name)
+
+    def coq_cases(self, tag, imports, ok_fn, case_type, cases):
+        from hsverif import coq
+        avg = max(1, sum(map(len, cases)) // max(1, len(cases)))
+        shard = max(10, min(400, 120_000 // avg))
+        return coq.eval_cases(f"{self._ctx.pid}_{tag}", imports, ok_fn, case_type, cases, shard=shard, workers=8)
 
 
 def run(ctx):
+    sctx = _Sharded(ctx)
     ctx.prove(COQ_FILES, allowed_axioms=(), trusted_base=TRUSTED)
-    n = ctx.n(300, 6000)
-    stats = [run_family(ctx, fam, n) for fam in FAMILIES]
+    stats = []
+    for fam in FAMILIES:
+        n = ctx.n(120, 2500) if fam.parallel else ctx.n(300, 6000)
+        stats.append(run_family(sctx, fam, n))
+        ctx.log(f"family {fam.name}: {stats[-1]['cases']} cases, {stats[-1]['mismatches']} mismatches, {stats[-1]['oracle_failures']} oracle failures ({stats[-1]['known']} known)")
     merge_stats(ctx, stats, "random operation schedules over small capacities/amounts; non-trivial = a release wakes at least one queued acquirer; distinct by JSON of the input")
     ctx.finish_obligations()
     ctx.assumptions += [
